@@ -27,5 +27,43 @@ package tcp
 //@
 //@ func readServerName
 //@   props C10
+//@   requires fullyRead[ref(clientHelloHandshakeMsg)]
 //@   ensures nopanic
 //@   ensures !ok ==> serverName == ""
+//@
+//@ // ---- C12 (and C10: the hello handed to the parser was read completely) ---------------------------
+//@ func (*Proxy).ServeTCP
+//@   props C12
+//@   requires p != nil && in != nil && !accessAdmitted
+//@   assigns *
+//@
+//@ func (*SNIProxy).ServeTCP
+//@   props C12 C10
+//@   requires p != nil && in != nil && !accessAdmitted
+//@   assigns *
+//@
+//@ func (*DynamicProxy).ServeTCP
+//@   props C12
+//@   requires p != nil && in != nil && !accessAdmitted
+//@   assigns *
+//@
+//@ // ---- C09: transparent byte streams ---------------------------------------------------------------
+//@ spec fun tail(s string, n int) string = s[n:]
+//@
+//@ func copyBuffer
+//@   props C09
+//@   requires dst != nil && src != nil
+//@   assigns *
+//@   ensures nopanic
+//@   ensures len(rd[src]) >= len(old(rd[src])) && rd[src][:len(old(rd[src]))] == old(rd[src])
+//@   ensures len(wr[dst]) >= len(old(wr[dst])) && wr[dst][:len(old(wr[dst]))] == old(wr[dst])
+//@   ensures err == nil ==> tail(wr[dst], len(old(wr[dst]))) == tail(rd[src], len(old(rd[src])))
+//@   loop 1 invariant len(rd[src]) >= len(old(rd[src])) && rd[src][:len(old(rd[src]))] == old(rd[src])
+//@   loop 1 invariant len(wr[dst]) >= len(old(wr[dst])) && wr[dst][:len(old(wr[dst]))] == old(wr[dst])
+//@   loop 1 invariant tail(wr[dst], len(old(wr[dst]))) == tail(rd[src], len(old(rd[src])))
+//@   loop 1 invariant len(buf) == 32768
+//@
+//@ func WriteProxyHeader
+//@   props C09
+//@   requires out != nil && in != nil
+//@   assigns *
